@@ -1121,7 +1121,7 @@ def check_C08(ctx):
         ctx.oblige("correspondence:built-in x embedding position x call syntax compile matrix (rejected as unsafe iff on the deny-list; every forbidden built-in rejected everywhere)", not ctx.violations)
     except Broken as b:
         broken.append(b)
-    ctx.coverage["rule"] = ("every built-in registered in the linked engine (thorough: all; quick: the 5 forbidden ones everywhere + a 6% sample of the rest) x 12 embedding positions (rego, regoModule, code/message form, not, and, or, if, "
+    ctx.coverage["rule"] = ("every built-in registered in the linked engine (thorough: all; quick: the 5 forbidden ones everywhere + a 6% sample of the rest) x 24 embedding positions (rego, regoModule, code/message form, not, and, or, if, then, else, second of two native constraints, rego + regoModule on one property, one of many native alternatives, after a comment line, "
                             "path-level rego, nested, atLeast, helper function in rego_extensions called from a rule, helper never called) x 4 call syntaxes (assignment, inside a comprehension, as argument of another call, bare statement); "
                             "for the forbidden ones also `with <function> as <built-in>` bindings (to a built-in and to a rego_extensions helper of the same arity) and modules with a second defect (keywords used as names, syntax/type errors, unknown functions, unsafe variables, unterminated strings); type-correct sample arguments from the built-in's declaration; for the forbidden ones the profile is also handed to Validate and to ValidateWithConfiguration under several report configurations (an error must come back); otherwise only CompileProfile is called, so nothing is evaluated")
     ctx.assumptions += ["the engine's capability check (rego.UnsafeBuiltins) is a dependency: modelled at term level (C08Term), tied by the matrix", "js/validator.go (WASM entry, build-constrained) calls the same internal pipeline and is not loaded by the inventory"]
